@@ -63,6 +63,8 @@ func (m *RuleManager) Initialize(maxReplica int, locationLabels []string) error 
 		return nil
 	}
 
+	// start from scratch, a previous attempt may have failed half way.
+	m.ruleConfig = newRuleConfig()
 	if err := m.loadRules(); err != nil {
 		return err
 	}
